@@ -1,4 +1,6 @@
-package main
+// Package srctab: classification tables of Session.Parse derived from the source (shared by cmd/c02, which compares
+// them as text, and cmd/c01, which drives every row through the real Parse).
+package srctab
 
 // Source-derived classification tables: go/parser + go/ast on $VERIF_REPO/layer_frame.go.
 //
@@ -422,8 +424,8 @@ func sameSet(a, b []int64) bool {
 	return true
 }
 
-// sourceTables returns kind -> canonical text for every table whose shape was recognised.
-func sourceTables() (map[string]string, []string) {
+// SourceTables returns kind -> canonical text for every table whose shape was recognised.
+func SourceTables() (map[string]string, []string) {
 	repo := os.Getenv("VERIF_REPO")
 	if repo == "" {
 		repo = "/repo"
@@ -462,4 +464,60 @@ func sourceTables() (map[string]string, []string) {
 		}
 	}
 	return out, unrec
+}
+
+// Row is one classification row in structured form.
+type Row struct {
+	Table string  // "ethertype" | "ipproto" | "udpports"
+	Kind  string  // ethertype: "lt" (length test, Keys[0] = bound) or "eq"; ipproto: "eq"; udpports: "e" | "d" | other
+	Keys  []int64 // EtherType / protocol number / ports of the row
+	ID    int64   // PayloadID the row assigns
+	Text  string  // the row as it appears in the canonical text
+}
+
+// Rows parses the canonical texts back into rows; ok=false for a row it cannot read (the caller reports it).
+func Rows(tabs map[string]string) (rows []Row, bad []string) {
+	num := func(s string) (int64, bool) { v, err := strconv.ParseInt(s, 10, 64); return v, err == nil }
+	for _, tab := range []string{"ethertype", "ipproto", "udpports"} {
+		txt, ok := tabs[tab]
+		if !ok {
+			continue
+		}
+		for _, r := range strings.Split(txt, ",") {
+			i := strings.Index(r, ">")
+			if i < 0 {
+				bad = append(bad, tab+":"+r)
+				continue
+			}
+			id, ok := num(r[i+1:])
+			key := r[:i]
+			row := Row{Table: tab, Kind: "eq", ID: id, Text: tab + ":" + r}
+			switch {
+			case tab == "ethertype" && strings.HasPrefix(key, "lt"):
+				row.Kind = "lt"
+				key = key[2:]
+			case tab == "udpports":
+				row.Kind = key[:1]
+				key = key[1:]
+				if row.Kind != "e" && row.Kind != "d" { // a row of another form: s<ports>.d<ports>
+					row.Kind = "x"
+					key = strings.NewReplacer("s", "", "d", "").Replace(r[:i])
+				}
+			}
+			for _, k := range strings.Split(key, ".") {
+				if k == "" {
+					continue
+				}
+				v, ok2 := num(k)
+				ok = ok && ok2
+				row.Keys = append(row.Keys, v)
+			}
+			if !ok || len(row.Keys) == 0 {
+				bad = append(bad, row.Text)
+				continue
+			}
+			rows = append(rows, row)
+		}
+	}
+	return rows, bad
 }
